@@ -115,6 +115,16 @@ func splitFunc(ctx *flags.Context) error {
 
 			splits := make([]int, len(heads)+2)
 			if top == gts.Circular {
+				if len(heads) < 2 {
+					// Every located region starts at the same position: there
+					// is one cut, and the piece is the record opened there.
+					seq = gts.Rotate(seq, -heads[0])
+					seq = gts.WithTopology(seq, gts.Linear)
+					if _, err := writer.WriteSeq(seq); err != nil {
+						return ctx.Raise(err)
+					}
+					break
+				}
 				splits[0] = heads[len(heads)-1]
 				splits = splits[:len(splits)-1]
 			} else {
